@@ -115,6 +115,23 @@ def check_two_objects(args):
         return "%s: two interleaved objects influence each other: %s vs alone %s" % (cls, (ra, rb), (alone_a, alone_b))
     return None
 
+def _shrink_ops(args, key, check, what):
+    """greedy removal of operations while the check still fails (minimal replay)"""
+    ops = list(args[key])
+    i = 0
+    while i < len(ops):
+        trial = dict(args)
+        trial[key] = ops[:i] + ops[i + 1:]
+        w = check(trial)
+        if w:
+            ops = trial[key]
+            what = w
+        else:
+            i += 1
+    out = dict(args)
+    out[key] = ops
+    return out, what
+
 def oracles_C13(ctx, hints):
     fails = []
     n = 0
@@ -131,6 +148,7 @@ def oracles_C13(ctx, hints):
             n += 1
             w = check_history_independence(args)
             if w:
+                args, w = _shrink_ops(args, "ops", check_history_independence, w)
                 fails.append(Failure("history_independence", args, w, {"class": cg.cls, "check": "history"}))
                 bad = True
                 break
